@@ -193,7 +193,8 @@ def next_steps(state):
         out += ['root_attach', 'punctuation_verylow', 'punctuation_symetrify',
                 'punctuation_root']
     else:
-        out += ['punctuation_verylow', 'punctuation_symetrify']
+        out += ['punctuation_verylow', 'punctuation_symetrify',
+                'punctuation_root']
     if heads:
         out += ['boyd_split', 'boyd_split', 'binarize', 'binarize']
     return out
